@@ -1050,6 +1050,8 @@ pub fn edge_template(rng: &mut Rng) -> (Vec<String>, &'static str) {
 pub struct DagDump {
     pub text: String,
     pub n_nodes: usize,
+    /// `(signames (k "name") ..)`: debug names attached to non-symbol nodes (sys.names), for faithful replays
+    pub signames: String,
 }
 
 /// post-order numbering of the expression graph reachable from the system; children are indices
@@ -1151,7 +1153,14 @@ pub fn dump_sys_dag(ctx: &Context, sys: &TransitionSystem) -> DagDump {
     }
     s.push_str("))");
     nodes.push(')');
-    DagDump { text: format!("{nodes} {s}"), n_nodes: count }
+    let mut named: Vec<(usize, String)> = idx
+        .iter()
+        .filter(|(e, _)| !ctx[**e].is_symbol())
+        .filter_map(|(e, k)| sys.names[*e].map(|n| (*k, ctx[n].to_string())))
+        .collect();
+    named.sort();
+    let signames = format!("(signames{})", named.iter().map(|(k, n)| format!(" ({k} {})", quote(n))).collect::<String>());
+    DagDump { text: format!("{nodes} {s}"), n_nodes: count, signames }
 }
 
 pub enum ImplRes {
